@@ -4,6 +4,7 @@ import H2V.Lemmas.ConnCountsPSend2
 -/
 namespace H2V.Lemmas.ConnCountsP
 open H2V H2V.Model H2V.Model.Conn
+variable {ρ : Bool}
 attribute [local irreducible] wrapSubU32 wrapSubUsize
 
 -- ===================================================================== updates of `Counts`
@@ -91,15 +92,15 @@ theorem cstep_clearRecvBufferLoop (inFlight : Nat) (l : List REvent) (acc : Nat)
 
 -- ===================================================================== recv.rs
 
-theorem releaseConnectionCapacity_ev (s : Streams) (cap : Nat) (t : Bool) : Ev s (s.releaseConnectionCapacity cap t) := by
+theorem releaseConnectionCapacity_ev (s : Streams) (cap : Nat) (t : Bool) : EvB ρ s (s.releaseConnectionCapacity cap t) := by
   unfold Streams.releaseConnectionCapacity
   ev_auto
 
-theorem releaseCapacity_ev (s : Streams) (id cap : Nat) (t : Bool) : Ev s (s.releaseCapacity id cap t).1 := by
+theorem releaseCapacity_ev (s : Streams) (id cap : Nat) (t : Bool) : EvB ρ s (s.releaseCapacity id cap t).1 := by
   unfold Streams.releaseCapacity
   ev_auto
 
-theorem clearRecvBuffer_ev (s : Streams) (id : Nat) (t : Bool) : Ev s (s.clearRecvBuffer id t) := by
+theorem clearRecvBuffer_ev (s : Streams) (id : Nat) (t : Bool) : EvB ρ s (s.clearRecvBuffer id t) := by
   unfold Streams.clearRecvBuffer
   dsimp only
   generalize hl : Streams.clearRecvBufferLoop _ _ _ _ = p
@@ -111,27 +112,27 @@ theorem clearRecvBuffer_ev (s : Streams) (id : Nat) (t : Bool) : Ev s (s.clearRe
   refine .trans (setCounts_ev s c hc) ?_
   ev_auto
 
-theorem releaseClosedCapacity_ev (s : Streams) (id : Nat) : Ev s (s.releaseClosedCapacity id) := by
+theorem releaseClosedCapacity_ev (s : Streams) (id : Nat) : EvB ρ s (s.releaseClosedCapacity id) := by
   unfold Streams.releaseClosedCapacity
   ev_auto
 
-theorem setTargetConnectionWindow_ev (s : Streams) (t : Nat) : Ev s (s.setTargetConnectionWindow t).1 := by
+theorem setTargetConnectionWindow_ev (s : Streams) (t : Nat) : EvB ρ s (s.setTargetConnectionWindow t).1 := by
   unfold Streams.setTargetConnectionWindow
   ev_auto
 
-theorem applyLocalSettings_ev (s : Streams) (a b : Option Nat) : Ev s (s.applyLocalSettings a b).1 := by
+theorem applyLocalSettings_ev (s : Streams) (a b : Option Nat) : EvB ρ s (s.applyLocalSettings a b).1 := by
   unfold Streams.applyLocalSettings
   ev_auto
 
-theorem consumeConnectionWindow_ev (s : Streams) (sz : Nat) : Ev s (s.consumeConnectionWindow sz).1 := by
+theorem consumeConnectionWindow_ev (s : Streams) (sz : Nat) : EvB ρ s (s.consumeConnectionWindow sz).1 := by
   unfold Streams.consumeConnectionWindow
   ev_auto
 
-theorem ignoreData_ev (s : Streams) (sz : Nat) : Ev s (s.ignoreData sz).1 := by
+theorem ignoreData_ev (s : Streams) (sz : Nat) : EvB ρ s (s.ignoreData sz).1 := by
   unfold Streams.ignoreData
   ev_auto
 
-theorem recvOpen_ev (s : Streams) (id : Nat) (pp : Bool) : Ev s (s.recvOpen id pp).1 := by
+theorem recvOpen_ev (s : Streams) (id : Nat) (pp : Bool) : EvB ρ s (s.recvOpen id pp).1 := by
   unfold Streams.recvOpen
   ev_auto
 
@@ -152,16 +153,16 @@ theorem modRecv_frame (s : Streams) (f : Recv → Recv)
   intro q
   cases q <;> simp [Streams.getQ, Streams.prio, Streams.recv, Streams.modRecv, h]
 
-theorem recvRecvHeaders_ev (s : Streams) (id : Nat) (h : HeadersIn) : Ev s (s.recvRecvHeaders id h).1 := by
+theorem recvRecvHeaders_ev (s : Streams) (id : Nat) (h : HeadersIn) : EvB true s (s.recvRecvHeaders id h).1 := by
   unfold Streams.recvRecvHeaders
   split
   · exact .refl _
   · next st' isInitial heq =>
     dsimp only
     generalize hS2 : (if (isInitial && !(Streams.stream _ id).isCounted) = true then _ else _) = S2
-    have eM : Ev s (s.modStream id fun st => { st with state := st' }) :=
+    have eM : EvB true s (s.modStream id fun st => { st with state := st' }) :=
       modStream_ev' _ _ _ (setState_same _ _ (recvOpen_early heq))
-    have e2 : Ev s S2 := by
+    have e2 : EvB true s S2 := by
       rw [← hS2]
       split
       · next hc =>
@@ -176,7 +177,7 @@ theorem recvRecvHeaders_ev (s : Streams) (id : Nat) (h : HeadersIn) : Ev s (s.re
     clear hS2 e2 eM
     ev_auto
 
-theorem recvRecvTrailers_ev (s : Streams) (id : Nat) (h : HeadersIn) : Ev s (s.recvRecvTrailers id h).1 := by
+theorem recvRecvTrailers_ev (s : Streams) (id : Nat) (h : HeadersIn) : EvB ρ s (s.recvRecvTrailers id h).1 := by
   unfold Streams.recvRecvTrailers
   ev_auto
 
@@ -193,10 +194,10 @@ theorem decContentLength_same {x st1 : Stream} {n : Nat} (h : x.decContentLength
 macro_rules | `(tactic| ev_side) => `(tactic| exact decContentLength_same (by assumption))
 
 theorem recvRecvData_ev (s : Streams) (id : Nat) (payload : Bytes) (eos : Bool) (pad : Option Nat) :
-    Ev s (s.recvRecvData id payload eos pad).1 := by
+    EvB ρ s (s.recvRecvData id payload eos pad).1 := by
   unfold Streams.recvRecvData
   extract_lets flowLen s0 sz st isIgnoringFrame
-  have e0 : Ev s s0 := by
+  have e0 : EvB ρ s s0 := by
     simp only [s0]
     ev_auto
   refine .trans e0 ?_
@@ -216,7 +217,7 @@ theorem recvRecvData_ev (s : Streams) (id : Nat) (payload : Bytes) (eos : Bool) 
         · split
           · exact .refl _
           · next st1 heq2 =>
-            have e2 : Ev s1 (s1.setStream st1) := setStream_ev _ id _ (decContentLength_same heq2)
+            have e2 : EvB ρ s1 (s1.setStream st1) := setStream_ev _ id _ (decContentLength_same heq2)
             refine .trans e2 ?_
             generalize s1.setStream st1 = s2
             dsimp only
@@ -227,7 +228,7 @@ theorem recvRecvData_ev (s : Streams) (id : Nat) (payload : Bytes) (eos : Bool) 
               rw [← h]
               ev_auto
             · next s3 heq3 =>
-              have e3 : Ev s2 s3 := by
+              have e3 : EvB ρ s2 s3 := by
                 have h := congrArg Prod.fst heq3
                 dsimp only at h
                 rw [← h]
@@ -235,35 +236,35 @@ theorem recvRecvData_ev (s : Streams) (id : Nat) (payload : Bytes) (eos : Bool) 
               refine .trans e3 ?_
               ev_auto
 
-theorem recvRecvPushPromise_ev (s : Streams) (id : Nat) (h : HeadersIn) : Ev s (s.recvRecvPushPromise id h).1 := by
+theorem recvRecvPushPromise_ev (s : Streams) (id : Nat) (h : HeadersIn) : EvB ρ s (s.recvRecvPushPromise id h).1 := by
   unfold Streams.recvRecvPushPromise
   ev_auto
 
-theorem recvNextIncoming_ev (s : Streams) : Ev s s.recvNextIncoming.1 := by
+theorem recvNextIncoming_ev (s : Streams) : EvB ρ s s.recvNextIncoming.1 := by
   unfold Streams.recvNextIncoming
   ev_auto
 
-theorem recvTakeRequest_ev (s : Streams) (id : Nat) : Ev s (s.recvTakeRequest id).1 := by
+theorem recvTakeRequest_ev (s : Streams) (id : Nat) : EvB ρ s (s.recvTakeRequest id).1 := by
   unfold Streams.recvTakeRequest
   ev_auto
 
-theorem recvRecvReset_ev (s : Streams) (id : Nat) (reason : Reason) : Ev s (s.recvRecvReset id reason).1 := by
+theorem recvRecvReset_ev (s : Streams) (id : Nat) (reason : Reason) : EvB ρ s (s.recvRecvReset id reason).1 := by
   unfold Streams.recvRecvReset
   ev_auto
 
-theorem recvHandleError_ev (s : Streams) (id : Nat) (err : PErr) : Ev s (s.recvHandleError id err) := by
+theorem recvHandleError_ev (s : Streams) (id : Nat) (err : PErr) : EvB ρ s (s.recvHandleError id err) := by
   unfold Streams.recvHandleError
   ev_auto
 
-theorem recvGoAway_ev (s : Streams) (last : Nat) : Ev s (s.recvGoAway last) := by
+theorem recvGoAway_ev (s : Streams) (last : Nat) : EvB ρ s (s.recvGoAway last) := by
   unfold Streams.recvGoAway
   ev_auto
 
-theorem recvRecvEof_ev (s : Streams) (id : Nat) : Ev s (s.recvRecvEof id) := by
+theorem recvRecvEof_ev (s : Streams) (id : Nat) : EvB ρ s (s.recvRecvEof id) := by
   unfold Streams.recvRecvEof
   ev_auto
 
-theorem recvMaybeResetNextStreamId_ev (s : Streams) (id : Nat) : Ev s (s.recvMaybeResetNextStreamId id) := by
+theorem recvMaybeResetNextStreamId_ev (s : Streams) (id : Nat) : EvB ρ s (s.recvMaybeResetNextStreamId id) := by
   unfold Streams.recvMaybeResetNextStreamId
   ev_auto
 
@@ -274,7 +275,7 @@ theorem stream_isLocalError_live {s : Streams} {k : Nat} (h : (s.stream k).state
   | none => rw [hx] at h; simp [State.isLocalError] at h
   | some x => rfl
 
-theorem enqueueResetExpiration_ev (s : Streams) (id : Nat) : Ev s (s.enqueueResetExpiration id) := by
+theorem enqueueResetExpiration_ev (s : Streams) (id : Nat) : EvB ρ s (s.enqueueResetExpiration id) := by
   unfold Streams.enqueueResetExpiration
   dsimp only
   split
@@ -287,11 +288,11 @@ theorem enqueueResetExpiration_ev (s : Streams) (id : Nat) : Ev s (s.enqueueRese
       simpa [Stream.isPendingResetExpiration] using h1.2
     · exact .refl _
 
-theorem sendPendingRefusal_ev (s : Streams) (w : Writer) : Ev s (s.sendPendingRefusal w).1 := by
+theorem sendPendingRefusal_ev (s : Streams) (w : Writer) : EvB ρ s (s.sendPendingRefusal w).1 := by
   unfold Streams.sendPendingRefusal
   ev_auto
 
-theorem clearStreamWindowUpdateQueue_ev : ∀ (fuel : Nat) (s : Streams), Ev s (Streams.clearStreamWindowUpdateQueue fuel s) := by
+theorem clearStreamWindowUpdateQueue_ev : ∀ (fuel : Nat) (s : Streams), EvB ρ s (Streams.clearStreamWindowUpdateQueue fuel s) := by
   intro fuel
   induction fuel with
   | zero => intro s; exact .refl _
@@ -301,10 +302,10 @@ theorem clearStreamWindowUpdateQueue_ev : ∀ (fuel : Nat) (s : Streams), Ev s (
     split
     · next s' heq => exact .of_fst_eq heq (qPop_ev _ _ (by decide) (by decide))
     · next s' id heq =>
-      have e0 : Ev s s' := .of_fst_eq heq (qPop_ev _ _ (by decide) (by decide))
+      have e0 : EvB ρ s s' := .of_fst_eq heq (qPop_ev _ _ (by decide) (by decide))
       exact .trans e0 (.trans (transitionAfter_after id (.refl _)) (ih _))
 
-theorem clearAllPendingAccept_ev : ∀ (fuel : Nat) (s : Streams), Ev s (Streams.clearAllPendingAccept fuel s) := by
+theorem clearAllPendingAccept_ev : ∀ (fuel : Nat) (s : Streams), EvB ρ s (Streams.clearAllPendingAccept fuel s) := by
   intro fuel
   induction fuel with
   | zero => intro s; exact .refl _
@@ -314,14 +315,14 @@ theorem clearAllPendingAccept_ev : ∀ (fuel : Nat) (s : Streams), Ev s (Streams
     split
     · next s' heq => exact .of_fst_eq heq (qPop_ev _ _ (by decide) (by decide))
     · next s' id heq =>
-      have e0 : Ev s s' := .of_fst_eq heq (qPop_ev _ _ (by decide) (by decide))
+      have e0 : EvB ρ s s' := .of_fst_eq heq (qPop_ev _ _ (by decide) (by decide))
       exact .trans e0 (.trans (transitionAfter_ev _ _ _ (fun h => Bool.noConfusion h)) (ih _))
 
-theorem sendConnectionWindowUpdate_ev (s : Streams) (w : Writer) : Ev s (s.sendConnectionWindowUpdate w).1 := by
+theorem sendConnectionWindowUpdate_ev (s : Streams) (w : Writer) : EvB ρ s (s.sendConnectionWindowUpdate w).1 := by
   unfold Streams.sendConnectionWindowUpdate
   ev_auto
 
-theorem sendStreamWindowUpdates_ev : ∀ (fuel : Nat) (s : Streams) (w : Writer), Ev s (Streams.sendStreamWindowUpdates fuel s w).1 := by
+theorem sendStreamWindowUpdates_ev : ∀ (fuel : Nat) (s : Streams) (w : Writer), EvB ρ s (Streams.sendStreamWindowUpdates fuel s w).1 := by
   intro fuel
   induction fuel with
   | zero => intro s w; exact .refl _
@@ -333,29 +334,29 @@ theorem sendStreamWindowUpdates_ev : ∀ (fuel : Nat) (s : Streams) (w : Writer)
     · split
       · next s' heq => exact .of_fst_eq heq (qPop_ev _ _ (by decide) (by decide))
       · next s' id heq =>
-        have e0 : Ev s s' := .of_fst_eq heq (qPop_ev _ _ (by decide) (by decide))
+        have e0 : EvB ρ s s' := .of_fst_eq heq (qPop_ev _ _ (by decide) (by decide))
         refine .trans e0 ?_
         dsimp only
         refine .trans (transitionAfter_after id ?_) (ih _ _)
         ev_auto
 
-theorem recvBufferPending_ev (s : Streams) (w : Writer) : Ev s (s.recvBufferPending w).1 := by
+theorem recvBufferPending_ev (s : Streams) (w : Writer) : EvB ρ s (s.recvBufferPending w).1 := by
   unfold Streams.recvBufferPending
   ev_auto
 
-theorem scheduleRecv_ev (s : Streams) (id : Nat) (tag : String) : Ev s (s.scheduleRecv id tag).1 := by
+theorem scheduleRecv_ev (s : Streams) (id : Nat) (tag : String) : EvB ρ s (s.scheduleRecv id tag).1 := by
   unfold Streams.scheduleRecv
   ev_auto
 
-theorem recvPollData_ev (s : Streams) (id : Nat) (tag : String) : Ev s (s.recvPollData id tag).1 := by
+theorem recvPollData_ev (s : Streams) (id : Nat) (tag : String) : EvB ρ s (s.recvPollData id tag).1 := by
   unfold Streams.recvPollData
   ev_auto
 
-theorem recvPollTrailers_ev (s : Streams) (id : Nat) (tag : String) : Ev s (s.recvPollTrailers id tag).1 := by
+theorem recvPollTrailers_ev (s : Streams) (id : Nat) (tag : String) : EvB ρ s (s.recvPollTrailers id tag).1 := by
   unfold Streams.recvPollTrailers
   ev_auto
 
-theorem recvPollResponse_ev : ∀ (fuel : Nat) (s : Streams) (id : Nat) (tag : String), Ev s (Streams.recvPollResponse fuel s id tag).1 := by
+theorem recvPollResponse_ev : ∀ (fuel : Nat) (s : Streams) (id : Nat) (tag : String), EvB ρ s (Streams.recvPollResponse fuel s id tag).1 := by
   intro fuel
   induction fuel with
   | zero => intro s id tag; exact .refl _
@@ -364,7 +365,7 @@ theorem recvPollResponse_ev : ∀ (fuel : Nat) (s : Streams) (id : Nat) (tag : S
     unfold Streams.recvPollResponse
     ev_auto_ih ih
 
-theorem recvPollInformational_ev (s : Streams) (id : Nat) (tag : String) : Ev s (s.recvPollInformational id tag).1 := by
+theorem recvPollInformational_ev (s : Streams) (id : Nat) (tag : String) : EvB ρ s (s.recvPollInformational id tag).1 := by
   unfold Streams.recvPollInformational
   ev_auto
 
